@@ -153,8 +153,11 @@ impl LocalHeader {
     }
 
     /// Get the BLTE data size (total size minus header).
+    ///
+    /// A stored size below the header size (corrupt or zeroed header) gives 0.
     pub const fn blte_size(&self) -> u32 {
-        self.size_with_header - LOCAL_HEADER_SIZE as u32
+        self.size_with_header
+            .saturating_sub(LOCAL_HEADER_SIZE as u32)
     }
 }
 
